@@ -39,3 +39,6 @@ def check(ctx: Ctx) -> None:
     # (else its ending raises before the release) - the registry-integrity premises shared with C02/C03/C05
     S.r_snapshot_forget(ctx, "R13.1")
     S.r_registry_who(ctx, "R03.1")
+    # "no invocation is lost": the spawner re-checks every coroutine it is about to start (`_check_start(awaitable=...)`) - with a
+    # predicate stricter than asyncio's, a coroutine the loop would run kills the spawner of an accepted request
+    A.r_external_predicates(ctx, "R04.13")
